@@ -454,6 +454,35 @@ def registry_scenario(which):
         return {"process": "failed: " + r.stderr[-300:]}
 
 
+def _mixed(pdk):
+    """A generic transistor compiled by model name next to the same device instantiated directly from the PDK's own
+    primitives: one PDK device, named twice - the compiled design must export and netlist."""
+    import hdl21 as h
+
+    mod = importlib.import_module(PDKS[pdk])
+    try:
+        prims = importlib.import_module(PDKS[pdk] + ".primitives")
+        g = golden(pdk)
+        row = [r for r in g["mos"] if r["terminals"] == 4][0]
+        direct = getattr(prims, row["key"])
+        m = h.Module(name="MixedTop")
+        m.a, m.b, m.c, m.d = h.Signals(4)
+        m.x = h.Mos(model=row["key"])(d=m.a, g=m.b, s=m.c, b=m.d)
+        m.y = direct(direct.paramtype())(**{p: s_ for p, s_ in zip(direct.ports if hasattr(direct, "ports") else [p.name for p in direct.port_list], (m.a, m.b, m.c, m.d))})
+    except Exception as e:
+        return ("harness", short_exc(e))
+    try:
+        mod.compile(m)
+        pkg = h.to_proto(m)
+        for fmt in ("spice", "spectre"):
+            h.netlist(pkg, io.StringIO(), fmt=fmt)
+    except Exception as e:
+        return ("bad", "a design using one PDK device both through compile() and directly cannot be exported / netlisted: " + short_exc(e)[:140])
+    if len(pkg.ext_modules) != 1:
+        return ("bad", f"{len(pkg.ext_modules)} external modules declared for one PDK device")
+    return ("ok", None)
+
+
 def _cells(lib):
     """Every logic cell of one library module: instantiate with each port on its own net, export and netlist."""
     import hdl21 as h
@@ -543,6 +572,12 @@ def run(ctx):
         ctx.violation(dict(model="", pdk="registry", prim="-", select="grow", what=str(r3.get("default_after_second_registered"))[:40], exc=""), dict(registry="grow", results=r3),
                       "after a second PDK is registered, compile() without a PDK must report the ambiguity (not keep using the first): " + str(r3))
     ctx.fam("registry", scenarios=3)
+    for pdk in ("sky130", "gf180"):
+        status, detail = _mixed(pdk)
+        ctx.count(states=1, transitions=3, traces_validated_against_impl=1)
+        ctx.fam("compiled_next_to_direct", **{status: 1})
+        if status != "ok":
+            ctx.violation(dict(model="", pdk=pdk, prim="Mos", select="mixed", what=str(detail)[:40], exc=""), dict(mixed=pdk), detail)
     # logic cells
     libs = ["sky130_hdl21.digital_cells.high_density", "sky130_hdl21.digital_cells.high_speed", "sky130_hdl21.digital_cells.low_leakage", "sky130_hdl21.digital_cells.low_power",
             "sky130_hdl21.digital_cells.low_speed", "sky130_hdl21.digital_cells.medium_speed", "gf180_hdl21.digital_cells.seven_track", "gf180_hdl21.digital_cells.nine_track"]
@@ -563,6 +598,8 @@ def replay(body):
     if "item" in c:
         it = c["item"]
         r = _one((it[0], (it[1][0], it[1][1]), it[2]))
+    elif "mixed" in c:
+        r = _mixed(c["mixed"])
     elif "registry" in c:
         r = ("info", registry_scenario(c["registry"]))
     else:
